@@ -50,6 +50,7 @@ type mEnumerant struct {
 
 type mMethod struct {
 	Name    string
+	Rename  string
 	Params  *mNode
 	Results *mNode
 }
@@ -106,6 +107,7 @@ type mField struct {
 	PDef      *mVal
 	WantPDef  bool
 	Explicit  bool
+	NullDef   bool // encode no defaultValue pointer at all; never set: capnpc-go panics on a null defaultValue (see NOTES.md, not covered)
 }
 
 // ---------------------------------------------------------------------------
@@ -221,6 +223,7 @@ type synth struct {
 	ifaces  []*mNode
 	opts    synthOpts
 	nField  int
+	fileIdx int
 }
 
 type synthOpts struct {
@@ -280,6 +283,7 @@ func Synthesize(rng *common.RNG, name, importBase string, opts synthOpts) *mSche
 		if nfiles == 2 && k == 0 {
 			n = 3 + rng.Intn(3)
 		}
+		s.fileIdx = k
 		s.fillFile(f, n, k == nfiles-1)
 	}
 	return sc
@@ -327,7 +331,8 @@ func (s *synth) fillFile(f *mFile, nStructs int, main bool) {
 		}
 	}
 	// interfaces (declared before struct bodies so fields can hold them)
-	nIf := 1 + rng.Intn(2)
+	nIf := 2 + rng.Intn(3)
+	prevIfs := append([]*mNode{}, s.ifaces...)
 	var ifs []*mNode
 	for i := 0; i < nIf; i++ {
 		n := s.newNode(f, nil, "interface", fmt.Sprintf("I%d", i))
@@ -339,7 +344,7 @@ func (s *synth) fillFile(f *mFile, nStructs int, main bool) {
 		s.genStruct(n, i)
 	}
 	for i, n := range ifs {
-		s.genIface(n, i, ifs[:i])
+		s.genIface(n, i, append(append([]*mNode{}, prevIfs...), ifs[:i]...))
 	}
 	// pointer-typed defaults, now that every struct body of this file exists
 	for _, n := range f.All {
@@ -590,7 +595,7 @@ func (s *synth) genStruct(n *mNode, idx int) {
 		for i := 0; i < pad*64; i++ {
 			a.used = append(a.used, true)
 		}
-		for i := 0; i < 3+rng.Intn(40); i++ {
+		for i := 0; i < 3+rng.Intn(300); i++ {
 			a.ptrs = append(a.ptrs, true)
 		}
 	}
@@ -738,7 +743,14 @@ func (s *synth) genGroupField(base, n *mNode, a *alloc, depth int, used map[stri
 	base.Groups = append(base.Groups, g)
 	gused := map[string]bool{}
 	s.genFields(base, g, a, 1+s.rng.Intn(4), depth+1, gused)
-	return &mField{Name: name, Disc: disc, Group: g}
+	gf := &mField{Name: name, Disc: disc, Group: g}
+	if s.rng.Chance(1, 12) {
+		if rn := "grpRn" + name; !used[rn] {
+			used[rn] = true
+			gf.Rename = rn
+		}
+	}
+	return gf
 }
 
 func (s *synth) genUnion(base, n *mNode, a *alloc, depth int, used map[string]bool) {
@@ -777,7 +789,7 @@ func (s *synth) genUnion(base, n *mNode, a *alloc, depth int, used map[string]bo
 			f = s.genSlot(c, used, vals[i])
 			if i == 0 && rng.Chance(1, 2) {
 				f.T = &mType{K: "void"}
-				f.Off, f.DefBits, f.WantPDef, f.Explicit = 0, 0, false, false
+				f.Off, f.DefBits, f.WantPDef, f.Explicit, f.NullDef = 0, 0, false, false, false
 			}
 		}
 		n.Fields = append(n.Fields, f)
@@ -791,13 +803,17 @@ func (s *synth) genUnion(base, n *mNode, a *alloc, depth int, used map[string]bo
 
 func (s *synth) genIface(n *mNode, idx int, earlier []*mNode) {
 	rng := s.rng
-	if len(earlier) > 0 && rng.Chance(1, 2) {
-		n.Supers = append(n.Supers, earlier[rng.Intn(len(earlier))])
+	// 0..3 distinct superclasses among the interfaces whose bodies exist
+	// (earlier ones of this file, all of the imported file); diamonds happen
+	for _, c := range earlier {
+		if len(n.Supers) < 3 && rng.Chance(2, 5) {
+			n.Supers = append(n.Supers, c)
+		}
 	}
 	k := rng.Intn(4)
 	for i := 0; i < k; i++ {
-		m := &mMethod{Name: fmt.Sprintf("m%dx%d", idx, i)}
-		if idx == 0 && rng.Chance(1, 4) {
+		m := &mMethod{Name: fmt.Sprintf("m%dx%dx%d", s.fileIdx, idx, i)}
+		if idx == 0 && s.fileIdx == 0 && rng.Chance(1, 4) {
 			m.Name = trickyNames[rng.Intn(12)]
 			dup := false
 			for _, o := range n.Methods {
@@ -806,7 +822,7 @@ func (s *synth) genIface(n *mNode, idx int, earlier []*mNode) {
 				}
 			}
 			if dup {
-				m.Name = fmt.Sprintf("m%dx%d", idx, i)
+				m.Name = fmt.Sprintf("m%dx%dx%d", s.fileIdx, idx, i)
 			}
 		}
 		mk := func(suffix string) *mNode {
@@ -832,6 +848,9 @@ func (s *synth) genIface(n *mNode, idx int, earlier []*mNode) {
 		}
 		m.Params = mk("Params")
 		m.Results = mk("Results")
+		if rng.Chance(1, 8) {
+			m.Rename = fmt.Sprintf("rn%dx%dx%d", s.fileIdx, idx, i)
+		}
 		n.Methods = append(n.Methods, m)
 	}
 }
